@@ -9,6 +9,7 @@ import (
 	"golang.org/x/tools/go/ssa"
 
 	"verif/internal/flow"
+	"verif/internal/prog"
 )
 
 func init() {
@@ -362,8 +363,12 @@ func runC14(c *Ctx) {
 	var switchRead *ssa.Function
 	var switchT *types.Named
 	var copierFld, srcFld string
+	// the swap function: a method that starts a func-typed field of its receiver with go; its receiver type
+	// is the reader switch when it also implements io.Reader. The swap may live in Read itself or in an
+	// unexported helper that only Read calls.
+	var swapFn *ssa.Function
 	for _, f := range c.P.LibraryFuncs() {
-		if f.Name() != "Read" || f.Signature.Recv() == nil {
+		if f.Signature.Recv() == nil {
 			continue
 		}
 		for _, ci := range flow.CallInstrs(f) {
@@ -371,12 +376,40 @@ func runC14(c *Ctx) {
 			if !ok {
 				continue
 			}
-			if tn, fld, _, ok := flow.FieldOf(g.Call.Value); ok {
-				switchRead, copierFld = f, fld
-				switchT = flow.NamedOf(f.Signature.Recv().Type())
-				_ = tn
+			if _, fld, _, ok := flow.FieldOf(g.Call.Value); ok {
+				nt := flow.NamedOf(f.Signature.Recv().Type())
+				if nt == nil {
+					continue
+				}
+				rd := c.P.Method(strings.TrimPrefix(nt.Obj().Pkg().Path(), prog.ModPath+"/"), nt.Obj().Name(), "Read")
+				if rd == nil {
+					continue
+				}
+				swapFn, switchRead, copierFld, switchT = f, rd, fld, nt
 			}
 		}
+	}
+	if swapFn != nil && swapFn != switchRead {
+		key := fname(swapFn) + ":swap-only-from-Read"
+		bad := ""
+		n := 0
+		for _, f := range c.P.LibraryFuncs() {
+			for _, ci := range flow.CallInstrs(f) {
+				if flow.StaticCallee(ci) == swapFn {
+					n++
+					if f != switchRead {
+						bad = fname(f)
+					}
+					if _, isGo := ci.(*ssa.Go); isGo {
+						bad = fname(f) + " (go)"
+					}
+				}
+			}
+		}
+		if swapFn.Object() != nil && swapFn.Object().Exported() {
+			bad = "exported method, callable by anyone"
+		}
+		r.Check(bad == "" && n > 0, "R5", key, c.fpos(swapFn), "the helper that swaps the source is unexported and called only from the switch's Read", "the source swap can run outside the switch's Read ("+bad+"): an in-flight Read on the old source races with the new one")
 	}
 	if switchRead == nil {
 		r.Undecided("R5", "role:reader-switch", "-", "no Read method starting a func-typed field with go found")
@@ -393,7 +426,7 @@ func runC14(c *Ctx) {
 			}
 		}
 		r.Role("ReaderSwitch", switchT.Obj().Name()+"{src:"+srcFld+", copier:"+copierFld+", mutex:"+swMu+"}")
-		c.c14Switch(ro, switchT, switchRead, srcFld, copierFld, swMu)
+		c.c14Switch(ro, switchT, swapFn, srcFld, copierFld, swMu)
 	}
 
 	// ---- R3 ----
@@ -410,7 +443,7 @@ func runC14(c *Ctx) {
 				return
 			}
 			if mc, ok := st.Val.(*ssa.MakeClosure); ok {
-				copiers = append(copiers, mc.Fn.(*ssa.Function))
+				copiers = append(copiers, flow.Unwrap(mc.Fn.(*ssa.Function)))
 			}
 		})
 	}
